@@ -109,7 +109,8 @@ func runNativeFuzz(r *runner) {
 		"FuzzMetadataKV": {"", nil},
 		"FuzzPrefixedBy": {"", nil},
 		"FuzzConfigStrings": {"retry-policytype", func(c Case) []string {
-			return []string{strconv.Quote(string(argb(c, "v"))), "int64(" + strconv.Itoa(atoi(c.Args["n"])) + ")"}
+			n, _ := strconv.ParseInt(c.Args["n"], 10, 64)
+			return []string{"string(" + strconv.Quote(string(argb(c, "v"))) + ")", "int64(" + strconv.FormatInt(n, 10) + ")"}
 		}},
 		"FuzzUppercase": {"streams-uppercase", func(c Case) []string {
 			if len(c.Args["data"]) > 4096 {
